@@ -34,7 +34,7 @@ ALL_KINDS = ("next", "skip", "twice", "swap", "rewind")
 # ---------------------------------------------------------------- configurations
 def cfg_list(tier, seed):
     """sets of fragment streams; ids X != Y, both different from the id a fresh cache holds (0)"""
-    X = 0x0120 + 5 * (seed % 1000)
+    X = 0x9120 + 5 * (seed % 1000)  # (uses the top bits of the 16-bit id)
     Y = X + 1
     q = tier == "quick"
     dq, dn = (8, 5) if q else (11, 6)
